@@ -43,8 +43,8 @@ fn sizes(rng: &mut Rng, i: usize, max: usize) -> (usize, usize) {
     if i < max {
         (max.min(i + 1 + range(rng, 0, 1)), i + 1)
     } else {
-        let nv_max = range(rng, 1, max);
-        (nv_max, range(rng, 1, nv_max))
+        let nv = range(rng, 1, max);
+        (range(rng, nv, max), nv)
     }
 }
 
@@ -308,8 +308,8 @@ fn vk_mutations(rng: &mut Rng, t: &Transcript, base: &ScalarClaim) -> Vec<Mut> {
 fn mutation_run(ctx: &mut Ctx, prop: &str, which: Which) {
     let n = match which {
         Which::Statement => ctx.n(24, 300),
-        Which::Proof => ctx.n(16, 200),
-        Which::All => ctx.n(12, 200),
+        Which::Proof => ctx.n(12, 200),
+        Which::All => ctx.n(8, 200),
     };
     let max = if ctx.thorough { 10 } else { 5 };
     let tag = format!("{}/mlpc", prop);
